@@ -9,3 +9,4 @@ pub mod twins_c10;
 pub mod twins_c11;
 pub mod twins_c12;
 pub mod twins_dedup;
+pub mod enum_quick;
